@@ -112,6 +112,17 @@ def check_codec(case):
         raise Violation('decode_error_on_encoded' + ('' if infmt else '_out_of_format'),
                         f'bytes produced by encode_circuit do not decode: {type(e).__name__}: {e}')
     isomorphic_or_raise(nl, refsem.from_circuit(dec), 'roundtrip' + ('' if infmt else '_out_of_format'))
+    # a decoded circuit is the caller's: what is done to it afterwards (the database negates and re-marks outputs of what it
+    # decodes) must not show in a later decoding of the same bytes
+    try:
+        first = next(iter(dec.gates), None)
+        if first is not None:
+            dec.emplace_gate('__after_decode__', core.gate.NOT, (first,))
+            dec.set_outputs(['__after_decode__'] + list(dec.outputs)[:1])
+    except core.CirboError:
+        pass
+    again = decode_circuit(bytes(data))
+    isomorphic_or_raise(nl, refsem.from_circuit(again), 'roundtrip_second_decoding')
     if case['via_db']:
         db = CircuitsDatabase()
         db.open()
